@@ -238,6 +238,15 @@ def _optimise_operator(op):
 
     get_duplicate_keys(key_list_node, id_dic)
 
+    def _depth(index):
+        res = 0
+        while type(nodes[index][1]) is int:
+            index = nodes[index][1]
+            res += 1
+        return res
+    # A shared node nested in another shared node has to be inserted after it
+    key_list_node.sort(key=lambda key: max(_depth(ii) for ii in id_dic[key]))
+
     for key in key_list_node:
         same_node[key] = [nodes[id_dic[key][0]][0],
                           FieldAdapter(nodes[id_dic[key][0]][0].target, next(prepend_id) + str(key))]
